@@ -147,6 +147,14 @@ CHECKS.update({
                 'bus observation at ProtocolHandler::addRequest; KNX sink not constructed',
         'technique': 'reference-predicate monitor over responses, stub-bus telegrams, poll priorities and sink publications of the real daemon objects, ASan/UBSan',
     },
+    'C18': {
+        'text': 'RequestImpl::add/split, MainLoop::executeGet (through decodeRequest) and StringReplacer/MqttHandler run on exhaustive short and '
+                'random long inputs: command lines vs a reference splitter, URIs vs RFC 3986 decode-once + a file-system model with marked files '
+                'outside the HTML root, topic templates vs the generating (circuit, name, field) triple and vs the message reached on the stub bus.',
+        'design_ref': 'DESIGN.md section 2, C18',
+        'note': 'trusted: refSplit/refDecode and the file-tree model in harness/daemon_driver.cpp; malformed escapes judged for confinement only',
+        'technique': 'exhaustive/random differential monitor of the real request parsers against reference parsers and a file-system model, ASan/UBSan',
+    },
     'C17': {
         'text': 'Histories of getNextPoll interleaved with priority changes, front/back insertion, late-loaded messages, removal and reload; '
                 'an online monitor checks the stride-scheduling waiting bound and proportional shares on perturbation-free windows.',
